@@ -253,7 +253,7 @@ func nameCases(c *lib.Ctx, w *world) ([]rec, error) {
 func modelCheck(c *lib.Ctx) error {
 	n := c.Pick(2, 3)
 	cfg := fmt.Sprintf("CONSTANT MaxLen = %d\nINIT Init\nNEXT Next\nINVARIANT Theorem\n", n)
-	r, err := c.TLC("MCComplete", lib.TLCRun{Dir: c.SpecDir("StringLit"), Module: "MCComplete", Workers: 4, Timeout: 12 * time.Minute,
+	r, err := c.TLC("MCComplete", lib.TLCRun{Dir: c.SpecDir("StringLit"), Module: "MCComplete", Workers: 4, Timeout: 45 * time.Minute,
 		Files: map[string][]byte{"MCComplete.cfg": []byte(cfg)}})
 	if err != nil {
 		return err
